@@ -3235,6 +3235,9 @@ func (b *BoundaryNode) Decode(d *Decoder) error {
 	if err != nil {
 		return err
 	}
+	if parentFlag > 1 {
+		return fmt.Errorf("invalid BoundaryNode parent discriminator %d", parentFlag)
+	}
 	if parentFlag == 0 {
 		b.Parent = nil
 	} else {
@@ -3246,6 +3249,9 @@ func (b *BoundaryNode) Decode(d *Decoder) error {
 	isLeafByte, err := d.buf.ReadByte()
 	if err != nil {
 		return err
+	}
+	if isLeafByte > 1 {
+		return fmt.Errorf("invalid bool encoding %d", isLeafByte)
 	}
 	b.IsLeaf = (isLeafByte != 0)
 	return nil
